@@ -110,6 +110,11 @@ pub enum Op {
     /// fault: the wall clock (what `SystemTime::now()` reads) is stepped back by `ns`, as an
     /// administrator or a time daemon does; timers and sleeps keep following monotonic time
     WallStepBack { ns: u64 },
+    /// fault: the wall clock alone is stepped forward by `ns` (no timer fires early)
+    WallStepFwd { ns: u64 },
+    /// `n` inserts of the distinct keys `base..base+n` (cost 1, no TTL); the result is the number
+    /// that returned true
+    InsertMany { base: u64, n: u64 },
     /// all clients stop, the system quiesces, a checkpoint is taken
     Barrier,
     Yield,
@@ -187,6 +192,7 @@ impl Op {
             Op::Sleep { .. } => "sleep",
             Op::Jump { .. } => "jump",
             Op::WallStepBack { .. } => "wall_step_back",
+            Op::WallStepFwd { .. } => "wall_step_fwd",
             Op::Barrier => "barrier",
             Op::Yield => "yield",
             Op::DropHandle => "drop_handle",
@@ -195,6 +201,7 @@ impl Op {
             Op::WhileHolding { .. } => "while_holding",
             Op::CancelNext { .. } => "cancel_next",
             Op::GetMany { .. } => "get_many",
+            Op::InsertMany { .. } => "insert_many",
             Op::MetricsReset => "metrics_reset",
             Op::StallWorker { .. } => "stall_worker",
         }
